@@ -1,20 +1,23 @@
 // Package uni holds call-chain helpers whose names consist mostly of
-// multi-byte runes, so that a byte-wise cut of an encoded stack can fall
-// inside a rune.
+// multi-byte runes and are about as long (in bytes) as those of package long,
+// so that a cut of an encoded stack at the name limit falls among them: inside a
+// rune when bytes are counted, beyond the limit when characters are.
 package uni
 
 //go:noinline
-func Ünïcödé_fünctiön_nämé_wïth_twö_býté_rünés_ééééééééééééééééééééé(next func()) {
+func Ünïcödé_fünctiön_nämé_wïth_twö_býté_rünés_éééééééééééééééééééééééééééééééééééééééééééééééééééééééééééééééééééééééééééééééééééééééééééééééééééééééééééééé(next func()) {
 	next()
 }
 
 //go:noinline
-func 世界_三字节_函数名称_用于测试截断位置_世界世界世界世界世界世界(next func()) {
+func 世界_三字节_函数名称_用于测试截断位置_世界世界世界世界世界世界世界世界世界世界世界世界世界世界世界世界世界世界世界世界世界世界世界世界世界世界世界世界世界世界世界世界世界世界世界世界世界世界(next func()) {
 	next()
 }
 
 //go:noinline
-func Mixed_é世_é世_é世_é世_é世_é世_é世_é世_é世_é世x(next func()) { next() }
+func Mixed_é世_é世_é世_é世_é世_é世_é世_é世_é世_é世_é世_é世_é世_é世_é世_é世_é世_é世_é世_é世_é世_é世_é世_é世_é世_é世_é世_é世_é世_é世_é世_é世_é世_é世_é世_é世_é世_é世_é世_é世_é世_é世_é世_é世_é世_é世_é世_é世_é世_é世_é世_é世_é世_é世_é世_é世_é世_é世_é世_é世_x(next func()) {
+	next()
+}
 
 // N is the number of helpers.
 const N = 3
@@ -23,10 +26,10 @@ const N = 3
 func Call(i int, next func()) {
 	switch i {
 	case 0:
-		Ünïcödé_fünctiön_nämé_wïth_twö_býté_rünés_ééééééééééééééééééééé(next)
+		Ünïcödé_fünctiön_nämé_wïth_twö_býté_rünés_éééééééééééééééééééééééééééééééééééééééééééééééééééééééééééééééééééééééééééééééééééééééééééééééééééééééééééééé(next)
 	case 1:
-		世界_三字节_函数名称_用于测试截断位置_世界世界世界世界世界世界(next)
+		世界_三字节_函数名称_用于测试截断位置_世界世界世界世界世界世界世界世界世界世界世界世界世界世界世界世界世界世界世界世界世界世界世界世界世界世界世界世界世界世界世界世界世界世界世界世界世界世界(next)
 	default:
-		Mixed_é世_é世_é世_é世_é世_é世_é世_é世_é世_é世x(next)
+		Mixed_é世_é世_é世_é世_é世_é世_é世_é世_é世_é世_é世_é世_é世_é世_é世_é世_é世_é世_é世_é世_é世_é世_é世_é世_é世_é世_é世_é世_é世_é世_é世_é世_é世_é世_é世_é世_é世_é世_é世_é世_é世_é世_é世_é世_é世_é世_é世_é世_é世_é世_é世_é世_é世_é世_é世_é世_é世_é世_é世_é世_x(next)
 	}
 }
